@@ -880,6 +880,12 @@ func genSTLSubs(r *rng, sym []byte) *astisub.Subtitles {
 	default:
 		cd := time.Date(1970+r.intn(90), time.Month(1+r.intn(12)), 1+r.intn(28), 0, 0, 0, 0, time.UTC)
 		rd := time.Date(1970+r.intn(90), time.Month(1+r.intn(12)), 1+r.intn(28), 0, 0, 0, 0, time.UTC)
+		if r.chance(1, 8) { // a supplied date may be the zero time (blank GSI date field read back)
+			cd = time.Time{}
+		}
+		if r.chance(1, 8) {
+			rd = time.Time{}
+		}
 		pick := func() string {
 			if clean {
 				return []string{"", "Title", "Episode 3", "x", "A  B"}[r.intn(5)]
